@@ -149,7 +149,7 @@ Example C08_latest_state_fair_example :
                          ETrigger [] [(TRender, false); (TRender, false)]; ERenderDone 1 1; ERenderDone 1 1; EAck 1 0; EAck 1 1] in
   (exists g0, In g0 (s_regs s) /\ g_gid g0 = 0 /\ g_phase g0 = PWait) /\ queuel 0 s = [] /\ s_version s = 3 /\
   map m_pv (wirel 0 s) = [0; 1; 3] /\ option_map m_pv (last_wire 0 s) = Some 3.
-Proof. vm_compute. repeat split. eexists. repeat split. left. reflexivity. Qed.
+Proof. vm_compute. split; [eexists; split; [left; reflexivity | split; reflexivity] | repeat split].  Qed.
 (* before the acknowledgement the newest notification still waits in the backlog: the hypothesis is not vacuous either way *)
 Example C08_latest_state_unfair_example :
   let s := run (init 0) [ERequest 1 true 1 1 (Some 0); ESetGate true; ETrigger [] [(TRender, false)];
